@@ -352,17 +352,18 @@ func (t *tr) block(stmts []ast.Stmt, ind string) string {
 			}
 			switch x.Tok {
 			case token.DEFINE, token.ASSIGN:
+			// (float64 reading: `x op= e` is the float operation `x op e`, rounded like any other)
 			case token.ADD_ASSIGN:
-				rhs = "(" + mangle(id.Name) + " + " + rhs + ")"
+				rhs = t.rnd(x.Lhs[0], "("+mangle(id.Name)+" + "+rhs+")")
 			case token.SUB_ASSIGN:
-				rhs = "(" + mangle(id.Name) + " - " + rhs + ")"
+				rhs = t.rnd(x.Lhs[0], "("+mangle(id.Name)+" - "+rhs+")")
 			case token.MUL_ASSIGN:
-				rhs = "(" + mangle(id.Name) + " * " + rhs + ")"
+				rhs = t.rnd(x.Lhs[0], "("+mangle(id.Name)+" * "+rhs+")")
 			case token.QUO_ASSIGN:
 				if !isFloat(info.TypeOf(x.Lhs[0])) {
 					return ind + t.fail(s, "assign op %s on a non-float", x.Tok)
 				}
-				rhs = "(" + mangle(id.Name) + " / " + rhs + ")"
+				rhs = t.rnd(x.Lhs[0], "("+mangle(id.Name)+" / "+rhs+")")
 			default:
 				return ind + t.fail(s, "assign op %s", x.Tok)
 			}
